@@ -114,10 +114,9 @@ def meta_api(r, defect_case=False):
     transport = r.choice(["grpc", "rest", "grpc+rest", "grpc+rest"])
     params = ["metadata", f"transport={transport}"]
     yaml = None
-    # internal methods (selective generation) are not combined with a sub-package service: on the current /repo that input fails
-    # with ClientLibrarySettingsError (settings validated against the sub-package view; reported as
-    # scratch/findings/C16-selective-generation-subpackage-view.json) — re-enable once repaired
-    if r.random() < 0.3 and len(all_rpcs) > 1 and len(files) == nfiles:
+    # internal methods (selective generation), also together with a sub-package service (the allow-list is validated against
+    # the whole API since /repo 6534fd1; witness kept in corpus/C15/C15-internal-methods-with-subpackage-service.json)
+    if r.random() < 0.3 and len(all_rpcs) > 1:
         public = r.sample(all_rpcs, r.randint(1, len(all_rpcs) - 1))
         yaml = {"type": "google.api.Service", "config_version": 3, "name": "meta.example.com",
                 "publishing": {"library_settings": [{"version": pkg, "python_settings": {"common": {"selective_gapic_generation": {
